@@ -19,11 +19,11 @@ from props import gdesc
 from props.gdesc import D, parse, enc, dec, sentinel
 
 FAMS = list(range(8))
-CATALOGUE = ['SO2', 'SO3', 'SE2', 'C1', 'SE3', 'B[SO3]', 'GAL', 'SEK1', 'SEK2', 'SEK3', 'SEK4',
-             'B[T2,SE2]', 'B[SE2,T2]', 'B[SO2,SO2,SO2]', 'B[T1,T3]', 'B[C1,T1,SO3,SO2]', 'B[SE3,T3,SO3]',
+CATALOGUE = ['SO2', 'SO3', 'SE2', 'C1', 'SE3', 'B[SO3]', 'B[T3,SO3]', 'B[C1,SO2]', 'GAL', 'SEK1', 'SEK2', 'SEK3', 'SEK4',
+             'B[T2,SE2]', 'B[SE2,T2]', 'B[SO2,SO2,SO2]', 'B[T1,T3]', 'B[B[T2,T2],SO2]', 'B[C1,T1,SO3,SO2]', 'B[SE3,T3,SO3]', 'B[SE2,T2,SO2,SE3]',
              'B[B[SO3,T3],SE2]', 'B[T2,B[SO2,B[SE3,T1]]]', 'B[GAL,T4]', 'B[SEK2,SO3]']
 GEN_DIR = os.path.join(vlib.LEAN, 'SmoothProofs', 'Gen')
-ARITH = ('M', 'ML', 'P')
+ARITH = ('M', 'ML', 'P', 'RL')
 TOL_ULP = 64.0
 
 
@@ -88,6 +88,7 @@ class Dump:
         self.sizes = {}      # (g, prec) -> (R, D, Dim)
         self.views = {}      # (g, acc) -> set of (off, len) over precs / view offsets ; 'scattered' tuples kept raw
         self.wsets = {}      # (g, op) -> set of results
+        self.reads = {}      # (g, acc) -> set of observed READ windows of the const overloads (cmap / asconst / cvalue)
         self.cviews = []     # const accessor / const reads that wrote something
         self.const = {}      # (g, prec) -> (n, names)
         self.bundles = {}    # g -> dict of lists (must agree over precs)
@@ -108,6 +109,9 @@ class Dump:
                     self.views.setdefault((g, what), set()).add(res)
                 else:
                     self.wsets.setdefault((g, what), set()).add(res)
+            elif t[0] == 'rview':
+                # rview G prec acc kind @off first len | scattered …
+                self.reads.setdefault((t[1], t[3]), set()).add(tuple(t[6:]))
             elif t[0] == 'const':
                 self.const[(t[1], t[2])] = (int(t[3]), t[4:])
             elif t[0] == 'bundle':
@@ -139,7 +143,7 @@ def gen_view_layout(ctx):
     except vlib.HarnessCompileError as e:
         return False, 'harness mem.cpp does not compile: ' + e.err[-1500:]
     groups = sorted({g for (g, _) in dump.sizes}, key=lambda x: (CATALOGUE.index(x) if x in CATALOGUE else 99, x))
-    obs_rows, size_rows, full_rows, notes = [], [], [], []
+    obs_rows, size_rows, full_rows, notes, read_rows = [], [], [], [], []
     for g in groups:
         d = parse(g)
         szs = {dump.sizes.get((g, p)) for p in ('f64', 'f32')} - {None}
@@ -159,6 +163,17 @@ def gen_view_layout(ctx):
                 o, ln = next(iter(res))
                 rows.append(f'({gdesc.lean_acc(acc)}, {o}, {ln})')
         obs_rows.append(f'  ({d.lean()}, [{", ".join(rows)}])')
+        rrows = []
+        for (gg, acc), res in sorted(dump.reads.items()):
+            if gg != g:
+                continue
+            if len(res) != 1 or len(next(iter(res))) != 2:
+                notes.append(f'-- {g}.{acc} const READ window: observed {sorted(res)}')
+                rrows.append(f'({gdesc.lean_acc(acc)}, 0, 0)')
+            else:
+                o, ln = next(iter(res))
+                rrows.append(f'({gdesc.lean_acc(acc)}, {o}, {ln})')
+        read_rows.append(f'  ({d.lean()}, [{", ".join(rrows)}])')
         for (gg, op), res in sorted(dump.wsets.items()):
             if gg != g:
                 continue
@@ -186,6 +201,12 @@ namespace Gen.ViewLayout
 def observed : List (GDesc × List (Acc × Nat × Nat)) := [
 {block(obs_rows)}]
 
+/-- `(G, [(accessor, offset, length)])`: the READ window of the CONST overload of every accessor — which words
+    of a sentinel-filled buffer the returned view shows — observed identically through `Map<const G>`, a const
+    value object and `std::as_const(Map<G>)`, at word offsets 0..3, double and float -/
+def observedRead : List (GDesc × List (Acc × Nat × Nat)) := [
+{block(read_rows)}]
+
 /-- `(G, RepSize, Dof, Dim)` as the C++ reports them -/
 def sizes : List (GDesc × Nat × Nat × Nat) := [
 {block(size_rows)}]
@@ -199,6 +220,14 @@ def fullWrites : List (GDesc × String × Nat × Nat) := [
 theorem observed_eq_model :
     observed.all (fun g => g.2.all (fun r =>
       decide ((subview g.1 r.1).map (fun t => (t.1, t.2.1)) = some (r.2.1, r.2.2)))) = true := by decide
+
+/-- the const overload of every accessor READS exactly the model's sub-view (= the window the mutable overload writes) -/
+theorem const_read_eq_model :
+    observedRead.all (fun g => g.2.all (fun r =>
+      decide ((subview g.1 r.1).map (fun t => (t.1, t.2.1)) = some (r.2.1, r.2.2)))) = true := by decide
+
+theorem const_read_all_observed :
+    observedRead.all (fun g => (accessors g.1).all (fun a => g.2.any (fun r => r.1 == a))) = true := by decide
 
 /-- every accessor of the model was observed on the implementation (nothing in the table is untested) -/
 theorem accessors_all_observed :
@@ -320,7 +349,8 @@ class ScriptGen:
                 offs.append(max(offs) + R + rng.randint(0, 2))
         self.offs = offs
         self.N = max(offs) + R + rng.randint(2, 5)
-        self.NV = 2
+        self.NV = 3          # v0, v1: operands; v2: scratch that receives what is read through const sub-views
+        self.NVU = 2
         self.size = self.N + self.NV * R
         self.init = [False] * self.size
         self.state0 = [sentinel(i, prec) for i in range(self.size)]
@@ -333,13 +363,13 @@ class ScriptGen:
 
     def mut_loc(self):
         if self.r.random() < 0.3:
-            return f'v{self.r.randrange(self.NV)}'
+            return f'v{self.r.randrange(self.NVU)}'
         return f'm{self.r.choice(self.offs)}'
 
     def any_loc(self):
         c = self.r.random()
         if c < 0.25:
-            return f'v{self.r.randrange(self.NV)}'
+            return f'v{self.r.randrange(self.NVU)}'
         return ('c' if c < 0.6 else 'm') + str(self.r.choice(self.offs))
 
     def path(self):
@@ -347,6 +377,19 @@ class ScriptGen:
         d, p, o = self.d, [], 0
         depth = self.r.choice((0, 0, 1, 1, 2))
         for _ in range(depth):
+            accs = d.accessors()
+            if not accs:
+                break
+            a = self.r.choice(accs)
+            o += self.sub_off(d, a)
+            d = d.sub(a)
+            p.append(a)
+        return p, o, d
+
+    def path_nonempty(self):
+        """accessor path of depth 1..3 (deep paths for nested bundles)"""
+        d, p, o = self.d, [], 0
+        for _ in range(self.r.choice((1, 1, 2, 2, 3))):
             accs = d.accessors()
             if not accs:
                 break
@@ -388,7 +431,8 @@ class ScriptGen:
         tries = 0
         while len(self.ops) < self.length and tries < self.length * 30:
             tries += 1
-            kinds = ['I', 'C', 'C', 'A', 'K', 'X'] if self.verbatim else ['I', 'C', 'C', 'A', 'K', 'M', 'M', 'ML', 'ML', 'P', 'P', 'X']
+            kinds = (['I', 'C', 'C', 'A', 'K', 'X', 'R', 'R'] if self.verbatim
+                     else ['I', 'C', 'C', 'A', 'K', 'M', 'M', 'ML', 'ML', 'P', 'P', 'X', 'R', 'R', 'RL'])
             k = r.choice(kinds)
             if k in ('I', 'C', 'M', 'P'):
                 loc = self.mut_loc()
@@ -411,6 +455,21 @@ class ScriptGen:
                         continue
                     a = words_of(gdesc.tangent(sd, r, r.choice(gdesc.STRATA[:5])), self.prec)
                     self.ops.append(['P', loc, ptok, str(len(a))] + a)
+            elif k in ('R', 'RL'):
+                # read a sub-part through the CONST accessor chain of any kind of view; result → scratch value v2
+                src = self.any_loc()
+                p, o, sd = self.path_nonempty()
+                if not p:
+                    continue
+                off = self.loc_off(src) + o
+                ln = sd.rep()
+                if k == 'RL' and not self.inited(off, ln):
+                    continue
+                self.ops.append([k, 'v2', src, '.'.join(p)])
+                so2_ = self.loc_off('v2')
+                n_out = ln if k == 'R' else sd.dof()
+                for i in range(n_out):
+                    self.init[so2_ + i] = self.init[off + i] if k == 'R' else True
             else:
                 dst, src = self.mut_loc(), self.any_loc()
                 do, so = self.loc_off(dst), self.loc_off(src)
@@ -471,6 +530,28 @@ class ScriptGen:
         self.ops.append(['ML', f'm{o}', 'v1'])
         return self
 
+    def gen_const_reads(self):
+        """deterministic: initialise one view and one value, then read EVERY accessor chain (depth 1 and 2) through
+        Map<const G> (`c`), std::as_const(Map<G>) (`m`) and a const value (`v`): copy-out (R) and log() (RL)"""
+        r = self.r
+        o = self.offs[0]
+        w = words_of(gdesc.element(self.d, r), self.prec)
+        self.ops.append(['C', f'm{o}', '-', str(len(w))] + w)
+        self.ops.append(['A', 'v0', f'c{o}'])
+        chains = []
+        for a in self.d.accessors():
+            chains.append([a])
+            sd = self.d.sub(a)
+            for a2 in sd.accessors():
+                chains.append([a, a2])
+                for a3 in sd.sub(a2).accessors():
+                    chains.append([a, a2, a3])
+        for ch in chains:
+            for src in (f'c{o}', f'm{o}', 'v0'):
+                self.ops.append(['R', 'v2', src, '.'.join(ch)])
+                self.ops.append(['RL', 'v2', src, '.'.join(ch)])
+        return self
+
     def header(self):
         return ['mem_script', self.g, self.prec, str(self.N), str(self.NV)]
 
@@ -507,6 +588,8 @@ def split_ops(toks):
             n = 4 + int(toks[i + 3])
         elif k in ('A', 'K', 'ML', 'X'):
             n = 3
+        elif k in ('R', 'RL'):
+            n = 4
         else:
             raise ValueError('bad op ' + k)
         ops.append(toks[i:i + n])
@@ -580,7 +663,7 @@ def check_scripts(requests, stats, findings, broken, samples):
             ws = wsets[k]
             lo, hi = (ws[0], ws[0] + ws[1]) if ws else (0, 0)
             rel = '-'
-            if op[0] in ('A', 'K', 'ML', 'X'):
+            if op[0] in ('A', 'K', 'ML', 'X', 'R', 'RL'):
                 R_ = parse(g).rep()
                 offd = N + int(op[1][1:]) * R_ if op[1][0] == 'v' else int(op[1][1:])
                 offs_ = N + int(op[2][1:]) * R_ if op[2][0] == 'v' else int(op[2][1:])
@@ -592,7 +675,7 @@ def check_scripts(requests, stats, findings, broken, samples):
             # audit independent of the model values: guard / frame words
             touched = [i for i in range(size) if now[i] != prev[i] and not (lo <= i < hi)]
             if touched:
-                findings.append({'property': 'C16', 'key': {'kind': 'frame', 'group': g, 'prec': prec, 'op': op[0], 'path': op[2] if len(op) > 2 and op[0] in 'ICMP' else '-'},
+                findings.append({'property': 'C16', 'key': {'kind': 'frame', 'group': g, 'prec': prec, 'op': op[0], 'path': (op[2] if op[0] in 'ICMP' else op[3] if op[0] in ('R', 'RL') else '-')},
                                  'err': len(touched), 'tol': 0,
                                  'what': f'op {" ".join(op[:3])} changed words {touched[:8]} outside its view [{lo},{hi})',
                                  'line': ' '.join(['mem_script', g, prec, str(N), str(NV)] + prev + op)})
@@ -619,7 +702,7 @@ def check_scripts(requests, stats, findings, broken, samples):
                                    'first': {'line': line, 'impl': ' '.join(now[lo:hi]), 'model': ' '.join(mw[lo:hi])}})
                 else:
                     # a verbatim op (or a frame word) disagrees with the buffer model: the property itself is violated
-                    findings.append({'property': 'C16', 'key': {'kind': 'verbatim', 'group': g, 'prec': prec, 'op': op[0], 'path': op[2] if op[0] in 'ICMP' else '-'},
+                    findings.append({'property': 'C16', 'key': {'kind': 'verbatim', 'group': g, 'prec': prec, 'op': op[0], 'path': (op[2] if op[0] in 'ICMP' else op[3] if op[0] in ('R', 'RL') else '-')},
                                      'err': len(bad_inside if isinstance(bad_inside, list) else []) + len(outside_bad), 'tol': 0,
                                      'what': f'op {" ".join(op[:3])}: implementation buffer differs from the buffer model at words '
                                              f'{(bad_inside if isinstance(bad_inside, list) else [])[:6] + outside_bad[:6]}',
@@ -741,7 +824,7 @@ class C16:
     lean_targets = ['SmoothProps.C16']
     translators = [gen_view_layout, gen_bundle_layout]
     rule = ('harness/mem.cpp: 21 catalogued group types (SO2 SO3 SE2 SE3 C1 Galilei SE_K_3<1..4>, 11 Bundles incl. nested) x '
-            '{double,float}; random scripts of <= 50 ops (I C A K M ML P X) on 2-4 overlapping Map<G>/Map<const G> views at word offsets '
+            '{double,float}; random scripts of <= 50 ops (I C A K M ML P X R RL) on 2-4 overlapping Map<G>/Map<const G> views at word offsets '
             '0..3 of one guarded buffer + 2 value objects; the full state after EVERY op is compared with the Lean buffer model; '
             'distinct_nontrivial counts distinct (group, scalar, op kind, accessor path, storage kinds)')
     assumptions = ['plain assignment between PARTIALLY overlapping views is excluded (Eigen aliasing contract of the caller); '
@@ -753,7 +836,7 @@ class C16:
     def _stats(self):
         return {'scripts': 0, 'ops': 0, 'by_op': {}, 'words_compared': 0, 'worst_arith_ulp': 0.0, 'whole_scripts_bitwise': 0,
                 'value_words_checked': 0, 'casts': 0, 'cast_words': 0,
-                'self_alias_scripts': 0, 'operand_relation': {}}
+                'self_alias_scripts': 0, 'const_read_scripts': 0, 'operand_relation': {}}
 
     def explore(self, ctx):
         quick = ctx['tier'] == 'quick'
@@ -770,6 +853,14 @@ class C16:
             if n:
                 findings.append({'property': 'C16', 'key': {'kind': 'const_mutator', 'group': g, 'prec': prec, 'members': names}, 'err': n, 'tol': 0,
                                  'what': f'Map<const {g}> exposes mutating members {names}', 'line': f'const {g} {prec}'})
+        # const overloads must READ the window the mutable overloads WRITE (independent of the model)
+        for (g, acc), res in dump.reads.items():
+            wr = dump.views.get((g, acc), set())
+            if res != wr or len(res) != 1:
+                findings.append({'property': 'C16', 'key': {'kind': 'const_read_window', 'group': g, 'accessor': acc}, 'err': 1, 'tol': 0,
+                                 'what': f'const overload of {acc}() on {g} reads window(s) {sorted(res)} (Map<const G> / std::as_const(Map<G>) / '
+                                         f'const value, offsets 0..3, both scalars) but the mutable overload writes {sorted(wr)}',
+                                 'line': f'rview {g} {acc}'})
         for (g, op), res in dump.wsets.items():
             R = parse(g).rep()
             if res != {('0', str(R))}:
@@ -798,6 +889,10 @@ class C16:
                     sg = ScriptGen(g, prec, rng, False, 0).gen_self_alias()
                     reqs.append(sg.request())
                     stats['self_alias_scripts'] += 1
+                if parse(g).accessors():
+                    sg = ScriptGen(g, prec, rng, False, 0).gen_const_reads()
+                    reqs.append(sg.request())
+                    stats['const_read_scripts'] += 1
         check_scripts(reqs, stats, findings, broken, samples)
         # ---- casts
         creqs = cast_requests(rng, (3 if quick else 20) * budget)
@@ -834,9 +929,9 @@ class C16:
         cov = {'evaluations': stats['ops'] + stats['casts'] + agree['comparisons'], 'distinct_nontrivial': len(kinds),
                'rule': self.rule, 'samples': samples, 'scripts': stats, 'agree': agree,
                'negative_compile_tests_rejected': neg_ok,
-               'dump': {'groups': len({g for g, _ in dump.sizes}), 'accessor_rows': len(dump.views), 'full_view_mutator_rows': len(dump.wsets),
+               'dump': {'groups': len({g for g, _ in dump.sizes}), 'accessor_rows': len(dump.views), 'const_read_window_rows': len(dump.reads), 'full_view_mutator_rows': len(dump.wsets),
                         'bundles': len(dump.bundles), 'const_accessor_reads_checked': True},
-               'gen_obligations': 8, 'gen_obligations_discharged': 8 - sum(1 for b in broken if 'Gen/' in b.get('name', '')),
+               'gen_obligations': 10, 'gen_obligations_discharged': 10 - sum(1 for b in broken if 'Gen/' in b.get('name', '')),
                'traces_validated_against_impl': stats['scripts']}
         return {'coverage': cov, 'findings': findings, 'broken': broken}
 
